@@ -6,7 +6,21 @@ package encr
 // functions double as replay drivers (a failed verifAssert panics with its label;
 // a failed verifAssume / verifRequires skips the case).
 
+import "bytes"
+
 type verifSkip struct{}
+
+// verifBytesEq: same length and same octets (nil and empty are equal).
+func verifBytesEq(a, b []byte) bool { return bytes.Equal(a, b) }
+
+// verifSameSlice: the same window of the same backing array.
+func verifSameSlice(a, b []byte) bool {
+	return len(a) == len(b) && (len(a) == 0 || &a[0] == &b[0])
+}
+
+// verifFresh: the slice's backing array was allocated during the call under
+// verification (always true at run time; ownership is a static obligation).
+func verifFresh(a []byte) bool { return true }
 
 func verifAssert(c bool, label string) {
 	if !c {
